@@ -58,11 +58,25 @@ def relLookups (m : Spec.RelMap) : Gen (List Nat × List Nat) := do
 
 def relFieldOffsets : List (Nat × Nat) := [(0, 4), (4, 4), (4, 1), (7, 1), (504, 4), (520, 4)]
 
-/-- what a correct tool reports for a 524-byte file whose first 512 bytes are the 12–15 encoding of `m` and whose last
-12 bytes are `tail`: the file size says PostgreSQL 16, so slots 62 and 63 hold the old crc/pad and the first 8 bytes of
-`tail` (unused as long as the count is ≤ 62) and the crc is the last four bytes -/
-def showRelSpecAs16 (m : Spec.RelMap) (tail : Bytes) (oids fns : List Nat) : String :=
-  showRelSpec { m with crc := rdAt 4 8 tail } oids fns
+/-- What a correct tool reports for the image `encRelMap m ++ tail` of a well-formed map `m` of layout `l` — exactly the
+cases the theorems of Props/C20 cover (`C20_relmap`, `_file`, `_damaged`, `_v16`, `_v16_full`, `_v16_damaged`); "-" (the
+Spec is silent) where the bytes are genuinely ambiguous: they verify under the other layout too (`C20_relmap_overlap`),
+or a damaged crc leaves only the size to go by and the size is the other layout's. -/
+def relSpecFor (l : Spec.RelMapLayout) (m : Spec.RelMap) (tail : Bytes) (oids fns : List Nat) : String :=
+  let img := Spec.encRelMap m ++ tail
+  match l with
+  | .v12 =>
+    if tail.length < 12 then showRelSpec m oids fns
+    else if Spec.relmapCrcOk .v16 img then "-"
+    else if decide (m.Intact .v12) || tail.length != 12 then showRelSpec m oids fns
+    else "-"
+  | .v16 =>
+    if m.mappings.length > 62 || decide (m.Intact .v16) then showRelSpec m oids fns
+    else if tail.isEmpty && !Spec.relmapCrcOk .v12 img then showRelSpec m oids fns
+    else "-"
+
+def tailTag (tail : Bytes) : String :=
+  if tail.isEmpty then "tail=0" else if tail.length < 12 then "tail=1..11" else if tail.length == 12 then "tail=12" else "tail>12"
 
 def genRelCase (idx : Nat) : Gen RelCase := do
   -- fixed prefix: counts −1..63 (stored as i32), every single-bit variant of the magic, file lengths
@@ -85,9 +99,9 @@ def genRelCase (idx : Nat) : Gen RelCase := do
       | 0 => (full.take 511, "err")
       | 1 => (full, showRelSpec m oids fns)
       | 2 => (full ++ [7], showRelSpec m oids fns)
-      -- 524 bytes = the PostgreSQL 16 size: such a file is read as the 16 layout (crc = its last four bytes)
-      | 3 => (full ++ (zeros 8 ++ le 4 0xCAFEF00D), showRelSpecAs16 m (zeros 8 ++ le 4 0xCAFEF00D) oids fns)
-      | 4 => (full ++ zeros (8192 - 512), showRelSpec m oids fns)
+      -- 524 bytes = the PostgreSQL 16 size, crc damaged: only the size is left to go by, and it says 16 (Spec silent)
+      | 3 => (full ++ (zeros 8 ++ le 4 0xCAFEF00D), relSpecFor .v12 m (zeros 8 ++ le 4 0xCAFEF00D) oids fns)
+      | 4 => (full ++ zeros (8192 - 512), relSpecFor .v12 m (zeros (8192 - 512)) oids fns)
       | 5 => ([], "err")
       | 6 => (full.take 8, "err")
       | _ => (full.take 507, "err")
@@ -99,7 +113,7 @@ def genRelCase (idx : Nat) : Gen RelCase := do
     let (oids, fns) ← relLookups m
     let file := Spec.encRelMapRaw Spec.relmapMagic (ofSigned 32 cnt) m
     let ok := 0 ≤ cnt ∧ cnt ≤ 64
-    return ⟨file, oids, fns, if ok then showRelSpec m oids fns else "err",
+    return ⟨file, oids, fns, if ok then relSpecFor .v16 m [] oids fns else "err",
       [if ok then "count=ok" else "count=bad", "layout=v16", s!"len={file.length}", "nt"]⟩
   if idx < 105 + 9 + 6 then
     let m0 ← Gen.genRelMap16N ([2, 64, 17, 17, 63, 64].getD (idx - 114) 2)
@@ -107,14 +121,39 @@ def genRelCase (idx : Nat) : Gen RelCase := do
     let (oids, fns) ← relLookups m
     let full := Spec.encRelMap m
     let (file, spec, tag) : Bytes × String × String := match idx - 114 with
-      | 0 => (full, showRelSpec m oids fns, "crc=true")                 -- n = 2, the stored crc is the CRC-32C of bytes 0..520
-      | 1 => (full, showRelSpec m oids fns, "crc=true")                 -- n = 64
+      | 0 => (full, relSpecFor .v16 m [] oids fns, "crc=true")          -- n = 2, the stored crc is the CRC-32C of bytes 0..520
+      | 1 => (full, relSpecFor .v16 m [] oids fns, "crc=true")          -- n = 64
       | 2 => (full.take 523, "-", "len=523")                            -- not a genuine size (read as the 12–15 layout)
-      | 3 => (full ++ [0], "-", "len=525")
-      | 4 => (full ++ [0], "err", "len=525")                            -- 63 mappings in a file that is not 524 bytes long
-      | _ => (full.take 520 ++ le 4 (m.crc ^^^ 1), showRelSpec { m with crc := m.crc ^^^ 1 } oids fns, "crc=onebit")
+      | 3 => (full ++ [0], relSpecFor .v16 m [0] oids fns, "len=525")   -- intact 16 map + 1 byte
+      | 4 => (full ++ [0], relSpecFor .v16 m [0] oids fns, "len=525")   -- 63 mappings + 1 byte
+      | _ => (full.take 520 ++ le 4 (m.crc ^^^ 1), relSpecFor .v16 { m with crc := m.crc ^^^ 1 } [] oids fns, "crc=onebit")
     return ⟨file, oids, fns, spec, [tag, "layout=v16", "nt"]⟩
-  match ← Gen.below 12 with
+  -- the witnesses of fixes/control/21 (#120–#124) and their neighbours
+  if idx < 130 then
+    let k := idx - 120
+    let l : Spec.RelMapLayout := if k ∈ [4, 5, 6, 7] then .v12 else .v16
+    let n := [2, 64, 63, 64, 2, 3, 4, 62, 62, 62].getD k 2
+    let m0 ← (do if l == .v12 then Gen.genRelMapN n else Gen.genRelMap16N n)
+    let m := if k == 6 ∨ k == 9 then m0 else Gen.withTrueCrc m0
+    let (oids, fns) ← relLookups m
+    let full := Spec.encRelMap m
+    let t12 ← Gen.bytes 12
+    let t8 ← Gen.bytes 8
+    let tail : Bytes := match k with
+      | 0 => zeros (8192 - 524)                          -- #120 intact 16 map, 2 mappings, zero-padded to 8192 bytes
+      | 1 => [0]                                         -- #121 64 mappings + 1 byte
+      | 2 => zeros (8192 - 524)                          -- #122 63 mappings padded to 8 KiB
+      | 3 => t12                                         -- #123 64 mappings + 12 bytes
+      | 4 => t12                                         -- #124 intact 12–15 map followed by 12 bytes
+      | 5 => t8 ++ le 4 (Spec.crc32c (full ++ t8))       -- the collision: verifies under both layouts (Spec silent)
+      | 6 => t12                                         -- damaged 12–15 map + 12 bytes (Spec silent)
+      | 7 => zeros (8192 - 512)                          -- intact 12–15 map with 62 mappings padded to 8 KiB
+      | 8 => [0xFF]                                      -- intact 16 map with 62 mappings + 1 byte
+      | _ => zeros 100                                   -- damaged 16 map with 62 mappings + tail (Spec silent)
+    let spec := relSpecFor l m tail oids fns
+    return ⟨full ++ tail, oids, fns, spec,
+      [s!"layout={if l == .v12 then "v12" else "v16"}", tailTag tail, s!"witness=R21.{k}", if spec == "-" then "spec=silent" else "nt"]⟩
+  match ← Gen.below 14 with
   | 0 => do                                     -- wrong magic
     let m ← Gen.genRelMap
     let magic ← Gen.oneOf [0, 0x592716, 0x592718, 0x17275900, 0xFF592717, 0x2717, 2 ^ 32 - 1]
@@ -128,47 +167,62 @@ def genRelCase (idx : Nat) : Gen RelCase := do
     let (oids, fns) ← relLookups m
     let file ← corrupt relFieldOffsets (Spec.encRelMap m)
     return ⟨file, oids, fns, "-", ["malformed"]⟩
-  | 3 => do                                     -- PostgreSQL 16: wrong magic / impossible count
+  | 3 => do                                     -- PostgreSQL 16: wrong magic / impossible count, any tail
     let m ← Gen.genRelMap16N 64
+    let tail ← (do if ← Gen.bool then pure [] else Gen.bytes (← Gen.range 1 40))
     if ← Gen.bool then
       let magic ← Gen.oneOf [0, 0x592716, 0x592718, 0x17275900, 0xFF592717, 0x2717, 2 ^ 32 - 1]
-      return ⟨Spec.encRelMapRaw magic 64 m, [], [], "err", ["magic=bad", "layout=v16", "nt"]⟩
+      return ⟨Spec.encRelMapRaw magic 64 m ++ tail, [], [], "err", ["magic=bad", "layout=v16", "nt"]⟩
     else
       let cnt ← Gen.oneOf [65, 66, 128, 2 ^ 31 - 1, 2 ^ 31, 2 ^ 32 - 1, 2 ^ 32 - 64, 256, 65536 + 5]
-      return ⟨Spec.encRelMapRaw Spec.relmapMagic cnt m, [], [], "err", ["count=bad", "layout=v16", "nt"]⟩
-  | 4 | 5 | 6 => do                             -- PostgreSQL 16 maps: exactly 524 bytes
+      return ⟨Spec.encRelMapRaw Spec.relmapMagic cnt m ++ tail, [], [], "err", ["count=bad", "layout=v16", "nt"]⟩
+  | 4 | 5 | 6 | 7 => do                         -- PostgreSQL 16 maps: 524 bytes, or in a longer buffer
     let m0 ← Gen.genRelMap16
-    let trueCrc ← Gen.prob 1 3
+    let trueCrc ← Gen.prob 2 3
     let m := if trueCrc then Gen.withTrueCrc m0 else m0
     let (oids, fns) ← relLookups m
-    let dup := m.mappings.length != (m.mappings.map (·.1)).eraseDups.length
-    return ⟨Spec.encRelMap m, oids, fns, showRelSpec m oids fns,
-      [(if m.mappings.length == 0 then "n=0" else if m.mappings.length ≥ 63 then "n=63..64" else "n=1..62"),
-       (if dup then "dups=1" else "dups=0"), "layout=v16", "len=524", (if trueCrc then "crc=true" else "crc=any"), "nt"]⟩
-  | _ => do
-    let m0 ← Gen.genRelMap
-    let trueCrc ← Gen.prob 1 3
-    let m := if trueCrc then Gen.withTrueCrc m0 else m0
-    let (oids, fns) ← relLookups m
-    let tail ← (do match ← Gen.below 4 with
+    let tail ← (do match ← Gen.below 6 with
       | 0 => Gen.bytes 12
       | 1 => do Gen.bytes (← Gen.range 1 600)
+      | 2 => pure (zeros (8192 - 524))
       | _ => pure [])
     let dup := m.mappings.length != (m.mappings.map (·.1)).eraseDups.length
-    -- a 12-byte tail makes the file 524 bytes long: read as the PostgreSQL 16 layout
-    let spec := if tail.length == 12 then showRelSpecAs16 m tail oids fns else showRelSpec m oids fns
+    let spec := relSpecFor .v16 m tail oids fns
+    return ⟨Spec.encRelMap m ++ tail, oids, fns, spec,
+      [(if m.mappings.length == 0 then "n=0" else if m.mappings.length ≥ 63 then "n=63..64" else "n=1..62"),
+       (if dup then "dups=1" else "dups=0"), "layout=v16", tailTag tail, (if trueCrc then "crc=true" else "crc=any"),
+       if spec == "-" then "spec=silent" else "nt"]⟩
+  | 8 => do                                     -- the collision corner: an intact 12–15 map that is an intact 16 map too
+    let m := Gen.withTrueCrc (← Gen.genRelMap)
+    let (oids, fns) ← relLookups m
+    let t8 ← Gen.bytes 8
+    let rest ← (do if ← Gen.bool then pure [] else Gen.bytes (← Gen.range 1 20))
+    let tail := t8 ++ le 4 (Spec.crc32c (Spec.encRelMap m ++ t8)) ++ rest
+    return ⟨Spec.encRelMap m ++ tail, oids, fns, relSpecFor .v12 m tail oids fns, ["layout=both", tailTag tail, "crc=true", "spec=silent"]⟩
+  | _ => do
+    let m0 ← Gen.genRelMap
+    let trueCrc ← Gen.prob 2 3
+    let m := if trueCrc then Gen.withTrueCrc m0 else m0
+    let (oids, fns) ← relLookups m
+    let tail ← (do match ← Gen.below 6 with
+      | 0 => Gen.bytes 12
+      | 1 => do Gen.bytes (← Gen.range 1 600)
+      | 2 => pure (zeros (8192 - 512))
+      | 3 => do Gen.bytes (← Gen.range 1 11)
+      | _ => pure [])
+    let dup := m.mappings.length != (m.mappings.map (·.1)).eraseDups.length
+    let spec := relSpecFor .v12 m tail oids fns
     return ⟨Spec.encRelMap m ++ tail, oids, fns, spec,
       [(if m.mappings.length == 0 then "n=0" else if m.mappings.length == 62 then "n=62" else "n=1..61"),
-       (if dup then "dups=1" else "dups=0"), "layout=v12",
-       (if tail.isEmpty then "len=512" else if tail.length == 12 then "len=524" else "len>512"),
-       (if trueCrc then "crc=true" else "crc=any"), "nt"]⟩
+       (if dup then "dups=1" else "dups=0"), "layout=v12", tailTag tail,
+       (if trueCrc then "crc=true" else "crc=any"), if spec == "-" then "spec=silent" else "nt"]⟩
 
 def relmapGen (seed idx _size : Nat) : Case :=
   let k := (genRelCase idx).run' (Prng.ofSeed seed idx)
   let args := [hexRle k.file, commaNat k.oids, commaNat k.fns]
   { tags := k.tags, model := relmapEval args, spec := k.spec, args }
 
-def relmap : Family := { name := "relmap", gen := relmapGen, eval := relmapEval, fixed := 120 }
+def relmap : Family := { name := "relmap", gen := relmapGen, eval := relmapEval, fixed := 130 }
 
 def relmapTotalModel (file : Bytes) : String := ctlOkOrPanic (Model.parseRelMapFile file)
 
@@ -182,7 +236,7 @@ def relmapTotal : Family :=
         | 2 => pure (zeros 512)
         | 3 => pure (List.replicate 512 255)
         | _ =>
-          if idx % 5 == 0 then do Gen.bytes (← Gen.oneOf [0, 8, 511, 512, 513, 523, 524, 525])
+          if idx % 5 == 0 then do Gen.bytes (← Gen.oneOf [0, 8, 511, 512, 513, 519, 520, 523, 524, 525, 536])
           else if idx % 5 == 1 then do corrupt relFieldOffsets (Spec.encRelMap (← Gen.genRelMap16))
           else do corrupt relFieldOffsets (Spec.encRelMap (← Gen.genRelMap)) : Gen Bytes)).run' (Prng.ofSeed seed idx)
       { tags := [if file.length < 512 then "len<512" else "len>=512"], model := relmapTotalModel file, spec := "ok", args := [hexRle file] },
